@@ -3,15 +3,38 @@ from hypothesis import strategies as st
 
 
 def uniform(lo, hi):
-    """Uniform integer in [lo, hi]. st.integers() is heavily biased towards small magnitudes for wide ranges
-    (measured: 75 % of draws from [0, 2^256) are below 2^32), so wide uniform draws are built from bytes."""
+    """Uniform integer in [lo, hi]. st.integers() is heavily biased: 75 % of draws from [0, 2^256) are below 2^32, and
+    a bounded draw inside a multi-draw composite returns its LOWER BOUND in ~30 % of the examples (measured: integers(0, 7)
+    -> 0 in 32 %, integers(0, 255) -> 0 in 18 %), which silently turns every 'kind' selector into its first branch.
+    st.sampled_from and fixed-size st.binary are unbiased (measured), so small ranges are sampled and wide ones are
+    built from bytes."""
     span = hi - lo + 1
     if span <= 1:
         return st.just(lo)
-    if span <= 256:
-        return st.integers(lo, hi)
+    if span <= 4096:
+        return st.sampled_from(range(lo, hi + 1))
     nb = (span.bit_length() + 7) // 8 + 8
     return st.binary(min_size=nb, max_size=nb).map(lambda b: lo + int.from_bytes(b, "little") % span)
+
+
+_ORIG_INTEGERS = st.integers
+
+
+def integers(min_value=None, max_value=None):
+    """Drop-in for st.integers: bounded ranges are uniform (see uniform()); unbounded ones stay Hypothesis' own."""
+    if min_value is None or max_value is None:
+        return _ORIG_INTEGERS(min_value, max_value)
+    if min_value > max_value:
+        return _ORIG_INTEGERS(min_value, max_value)       # raises Hypothesis' own InvalidArgument
+    return uniform(min_value, max_value)
+
+
+def install():
+    """Every strategy in props/ and engine/ spells bounded selector draws as st.integers(a, b): make that spelling
+    unbiased everywhere (idempotent; called by engine.core before any property module is imported)."""
+    import hypothesis.strategies as hs
+    if hs.integers is not integers:
+        hs.integers = integers
 
 
 def digit(W):
